@@ -44,6 +44,24 @@ Theorem C14_key_matches_at_most_one_class :
 Proof. exact at_most_one_class. Qed.
 Print Assumptions C14_key_matches_at_most_one_class.
 
+(* "most specific prefix wins": a documented runtime prefix is never more specific than a configured class prefix, so a key under a shared /
+   persistent class prefix is never classified runtime (tunnox:runtime:conncode:* and tunnox:runtime:client:state:* stay shared although
+   tunnox:runtime: is a documented runtime prefix); and the REAL getCategory / getCacheForKey (regenerated sample table) put every shipped
+   prefix, and prefix ++ "42", in its own class *)
+Theorem C14_most_specific_prefix_wins :
+  forall (k p r : kbytes),
+  In p class_prefixes -> In r RuntimePrefixes -> is_prefix p k = true -> is_prefix r k = true ->
+  is_prefix r p = true /\ category GenTables k <> CRuntime.
+Proof. exact most_specific_prefix_wins. Qed.
+Print Assumptions C14_most_specific_prefix_wins.
+Theorem C14_shipped_prefixes_real_class :
+  forallb (real_class_is CatShared true) SharedPrefixes = true /\
+  forallb (real_class_is CatSharedPersistent false) SharedPersistentPrefixes = true /\
+  forallb (real_class_is CatPersistent false) PersistentPrefixes = true /\
+  forallb (real_class_is CatRuntime false) (filter (fun r => negb (has_prefix (SharedPrefixes ++ SharedPersistentPrefixes ++ PersistentPrefixes) r)) RuntimePrefixes) = true.
+Proof. exact shipped_prefixes_real_class. Qed.
+Print Assumptions C14_shipped_prefixes_real_class.
+
 (* pinned code refuted: Incr on the shared id counter calls the LOCAL cache and two interleaved calls both return 1;
    SetNX on a shared+persistent key is invisible to the following Get *)
 Theorem C14_tier_routing_pinned_refuted :
